@@ -31,7 +31,9 @@ def cases(draw):
     ours = draw(st.sampled_from(HOLDS_OURS))
     peer = draw(st.sampled_from(HOLDS_PEER))
     h = min(ours, peer)
-    mode = draw(st.sampled_from(['long-batch', 'write-stall', 'inbound-stream', 'open-withheld', 'established', 'established', 'established']))
+    mode = draw(st.sampled_from(['long-batch', 'write-stall', 'inbound-stream', 'open-withheld', 'keepalive-withheld', 'established', 'established', 'established']))
+    if mode == 'keepalive-withheld':
+        return {'ours': ours, 'peer': peer, 'mode': mode, 'openwait': 5, 'delay_open': 1.0, 'steps': [], 'tail': 'silence'}
     if mode in ('write-stall', 'long-batch', 'inbound-stream') and h == 0:
         mode = 'established'
     openwait = draw(st.sampled_from([3, 5, 10]))
@@ -100,6 +102,15 @@ def check(case: dict) -> dict:
                     await r.send_msg(codec.OPEN, open_body)
                     await hn.sleep(1.0)
                 events['withheld'] = {'t0': t0, 'closed_at': r.closed_at, 'notifications': [(t, codec.decode_notification(b)[:2]) for t, _, b in r.of_type(3)], 'sent_open_at': r.sent[0][0] if r.sent else None}
+                return
+            if case['mode'] == 'keepalive-withheld':
+                # OPENCONFIRM: both OPENs are out, the hold time is negotiated, the remote never sends its KEEPALIVE
+                await r.wait_for(lambda: any(ty == 1 for _, ty, _ in r.messages), timeout=5.0)
+                await r.send_msg(codec.OPEN, open_body)
+                t_open = loop.time()
+                hh = min(case['ours'], case['peer'])
+                await r.wait_for(lambda: r.closed_at is not None, timeout=(hh if hh else 40) + 4 * G)
+                events['confirm'] = {'t_open': t_open, 'closed_at': r.closed_at, 'end': loop.time(), 'notifications': [(t, codec.decode_notification(b)[:2]) for t, _, b in r.of_type(3)], 'updates': len(r.of_type(2)), 'fsm': hn.peer(0).fsm.name()}
                 return
             if case['mode'] == 'write-stall':
                 hn.write_stall = float(case['stall'])
@@ -194,6 +205,26 @@ def check(case: dict) -> dict:
                 raise Violation('openwait:early', f'{notes[0]} before openwait {case["openwait"]} elapsed')
         return {'nontrivial': nontrivial, 'classes': classes + [f'open-late:{late}']}
 
+    if case['mode'] == 'keepalive-withheld':
+        ev = events['confirm']
+        notes = ev['notifications']
+        if ev['updates'] or ev['fsm'] == 'ESTABLISHED':
+            raise Violation('confirm:established-without-keepalive', f'fsm {ev["fsm"]}, {ev["updates"]} UPDATE(s) written')
+        if h == 0:
+            if any(cs == (4, 0) for _, cs in notes):
+                raise Violation('hold0:hold-timer-fired', f'in OPENCONFIRM: {notes}')
+            return {'nontrivial': True, 'classes': classes}
+        if not notes:
+            raise Violation('hold:not-fired:OPENCONFIRM', f'no KEEPALIVE from the peer for {ev["end"] - ev["t_open"]:.1f}s after the OPENs, H={h}: no NOTIFICATION, closed_at={ev["closed_at"]}')
+        t, cs = notes[0]
+        if cs != (4, 0):
+            raise Violation(f'hold:wrong-notification:{cs[0]}/{cs[1]}', f'OPENCONFIRM silence, H={h}')
+        if t - ev['t_open'] < h - 1.0:  # the timer starts with our OPEN, up to a second before the peer's arrives here
+            raise Violation('hold:fired-early', f'4/0 after {t - ev["t_open"]:.2f}s in OPENCONFIRM, H={h}')
+        if t - ev['t_open'] > h + G:
+            raise Violation('hold:fired-late', f'4/0 {t - ev["t_open"] - h:.2f}s after the hold time ran out in OPENCONFIRM (H={h})')
+        return {'nontrivial': True, 'classes': classes + ['hold-expired']}
+
     ev = events['run']
     msgs = ev['messages']
     notifications = [(t, codec.decode_notification(b)[:2]) for t, ty, b in msgs if ty == 3]
@@ -287,6 +318,8 @@ def fixed_cases() -> list:
             out.append({'ours': h, 'peer': peer, 'mode': 'inbound-stream', 'openwait': 5, 'delay_open': 1.0, 'steps': [], 'tail': 'silence', 'span': round(hh / 3.0 + 3.0, 2), 'every': every, 'what': what})
         out.append({'ours': h, 'peer': peer, 'mode': 'long-batch', 'openwait': 5, 'delay_open': 1.0, 'steps': [], 'tail': 'silence', 'routes': 80, 'period': round(max(0.5, hh / 3.0), 2)})
         out.append({'ours': h, 'peer': peer, 'mode': 'write-stall', 'openwait': 5, 'delay_open': 1.0, 'steps': [], 'tail': 'silence', 'stall': hh * 2.0, 'period': round(hh / 2.0, 2)})
+        out.append({'ours': h, 'peer': peer, 'mode': 'keepalive-withheld', 'openwait': 5, 'delay_open': 1.0, 'steps': [], 'tail': 'silence'})
+    out.append({'ours': 0, 'peer': 30, 'mode': 'keepalive-withheld', 'openwait': 5, 'delay_open': 1.0, 'steps': [], 'tail': 'silence'})
     return out
 
 
